@@ -86,6 +86,69 @@ CHECKS = {
             "first/last/other backups yields a consistent filesystem with an identical tree.",
             "meta_bg last-group descriptor copies are judged statically only (libext2fs never reads them).",
             "DESIGN.md section 2, C20"),
+    "C03": ("exploration",
+            "runtime monitoring against an executable reference model: journals written by an independent "
+            "JBD2 writer (own CRCs, tag formats, escapes, revokes, wrap) into corpus images, replayed by both "
+            "front-ends, every filesystem block compared with the model's prediction",
+            "For generated journals (0-12 transactions, 32/64-bit tags, csum none/v1/v2/v3, async, multi-"
+            "descriptor, escapes, revokes before/after, wrapped logs) with missing/stale/corrupted tails, "
+            "e2fsck -E journal_only and debugfs jr leave exactly the committed, unrevoked images in place, "
+            "everything else untouched, the journal empty and needs_recovery clear; e2fsck -fy ends clean.",
+            "Writer and model come from the format description (a shared misunderstanding of the format would "
+            "be invisible); internal journals only; a checksum-failed descriptor may stop replay earlier.",
+            "DESIGN.md section 2, C03"),
+    "C04": ("fault_enumeration",
+            "offline checker over a recorded syscall trace (LD_PRELOAD iotrace): crash images rebuilt from "
+            "every prefix of the recovery run's device writes with un-synced writes dropped, a static "
+            "write-ordering rule, and re-running recovery on each crash image",
+            "For traced recovery runs of both front-ends: at no crash point is the journal marked empty or "
+            "needs_recovery cleared while a replayed block is missing, and re-running recovery on every crash "
+            "image reproduces the uninterrupted result (crash states enumerated per prefix: all kept, each "
+            "single write dropped/only kept, random subsets, all subsets for windows <= 6).",
+            "Crash model: completed fsync makes earlier writes durable, each traced write call is atomic; "
+            "torn primary superblocks without a reachable backup are a listed known finding.",
+            "DESIGN.md section 2, C04"),
+    "C05": ("exploration",
+            "runtime monitoring with an independent tree digest (pyext4) before/after every repair mode on "
+            "consistent images and after summary/checksum-only corruptions, plus e2fsck -fn and the "
+            "independent checker afterwards",
+            "Repair modes -fp/-fy/-fyD/-E bmap2extent/-E fixes_only leave every path, type, byte, size, "
+            "mode, owner, link group, symlink target and xattr unchanged on corpus images and generated "
+            "directories; damage confined to bitmaps, counts, UNINIT flags and checksum fields is repaired "
+            "without changing any file (finite universe of 30000 cases, quick samples it).",
+            "Timestamps are not compared; failing cases are reduced to a 1-minimal corruption set before keying.",
+            "DESIGN.md section 2, C05"),
+    "C08": ("exploration",
+            "runtime monitoring: independent tree digest/consistency/size checks around resize2fs runs and an "
+            "offline checker over recorded write traces for the EXT2_ERROR_FS flag rule at every prefix",
+            "Over images built by the tree (flex_bg, meta_bg, bigalloc, sparse_super2, full, ...) and targets "
+            "(minimum, group boundaries +-1, random, -M, 32<->64 bit, chains): success leaves a consistent fs "
+            "of the requested size with an identical tree; refusals change nothing; in traced runs every "
+            "prefix between first modification and final superblock rewrite carries the error flag, made "
+            "durable by an fsync first.",
+            "Offline resize only; the flag rule is judged on the traced subset chosen to cover what runs did.",
+            "DESIGN.md section 2, C08"),
+    "C14": ("fault_enumeration",
+            "independent recomputation of every checksum in images written by the tree's tools, a bit-flip "
+            "sweep over checksum-covered bytes judged by the library read path and e2fsck -fn, and CRC "
+            "primitives compared with bitwise definitions",
+            "Every checksummed object produced by mke2fs/debugfs/tune2fs/resize2fs/repairing e2fsck carries "
+            "the format's checksum per an independent implementation; a flipped bit in any sampled covered "
+            "byte of superblock, descriptors, bitmaps, inodes, extent/dir/htree/xattr blocks, MMP is rejected "
+            "by the library and by e2fsck -fn; crc32c/crc16/crc32-be equal their definitions for lengths "
+            "0-600 x alignments 0-15.",
+            "Journal block checksums are covered by C03; descriptor checksum acceptance by e2fsck -fn is a "
+            "listed known finding.",
+            "DESIGN.md section 2, C14"),
+    "C18": ("exploration",
+            "runtime monitoring with the host filesystem as the oracle: generated trees populated via mke2fs "
+            "-d / debugfs scripts / tar, image read back only by pyext4 and compared with lstat/readlink/"
+            "listxattr/SEEK_HOLE; rdump/dump/cat output compared with the source",
+            "Names, types incl. devices/fifos/sockets, bytes, sizes, holes, symlink targets, hard-link groups, "
+            "full modes, 32-bit owners, mtimes, user xattrs match the host tree for every generated tree and "
+            "14 feature sets; images are consistent and byte-reproducible; extraction returns the same data.",
+            "Host tree on tmpfs; route B limited to what debugfs can express; tar route compares no xattrs/holes.",
+            "DESIGN.md section 2, C18"),
 }
 
 NOT_YET = "check not built yet in this round (planned, see DESIGN.md section 2)"
